@@ -240,6 +240,17 @@ pub fn multi_funnel(rng: &mut Rng) -> (usize, Vec<(usize, usize)>, &'static str)
     (n, atts, "multi_funnel")
 }
 
+/// A dense framework on 6..max_n arguments (no self-attack mostly): every argument is "heavy" for the
+/// hybrid encoder (product of the attacker counts of its attackers >= 32), so auxiliary variables are
+/// allocated on every encoding. Used with LONG query sequences on one object.
+pub fn gen_dense(rng: &mut Rng, max_n: usize) -> GenAf {
+    let n = rng.range(6, max_n.max(6));
+    let d = [60, 80, 100][rng.below(3)];
+    let self_ok = rng.chance(1, 5);
+    let atts = random_atts(rng, n, d, self_ok);
+    GenAf { build: Build::Iccma(n, atts), recipe: "dense_long" }
+}
+
 /// Generates a framework with at most `max_n` arguments.
 pub fn gen_af(rng: &mut Rng, max_n: usize) -> GenAf {
     let style = rng.below(100);
